@@ -59,7 +59,7 @@ pub struct JsonFormat {
 }
 
 /// Damaged observations (C12 obs_malformed configuration): (date, kind).
-pub const MALFORMED_KINDS: [&str; 8] = ["missing_v", "non_numeric", "null_v", "zero", "negative", "bad_date", "value_not_object", "obs_not_object"];
+pub const MALFORMED_KINDS: [&str; 11] = ["missing_v", "non_numeric", "null_v", "zero", "negative", "bad_date", "value_not_object", "obs_not_object", "missing_date", "date_not_string", "no_series_key"];
 
 /// Materialised calendar: the ground truth of one simulation.
 pub struct BocData {
@@ -163,6 +163,9 @@ impl BocData {
                 Some("zero") => format!("{{\"d\":\"{}\",\"{}\":{{\"v\":\"0.0000\"}}}}", d, series),
                 Some("negative") => format!("{{\"d\":\"{}\",\"{}\":{{\"v\":\"-{}\"}}}}", d, series, v),
                 Some("bad_date") => format!("{{\"d\":\"{}x\",\"{}\":{{\"v\":{}}}}}", d, series, val),
+                Some("missing_date") => format!("{{\"{}\":{{\"v\":{}}}}}", series, val),
+                Some("date_not_string") => format!("{{\"d\":{},\"{}\":{{\"v\":{}}}}}", d.year() * 10000 + d.month() as i32 * 100 + d.day() as i32, series, val),
+                Some("no_series_key") => format!("{{\"d\":\"{}\"}}", d),
                 Some("value_not_object") => format!("{{\"d\":\"{}\",\"{}\":{}}}", d, series, val),
                 Some(_) => format!("\"{} {}\"", d, v),
             };
@@ -253,7 +256,7 @@ pub struct ReqObs {
     pub url_ok: bool,
 }
 
-pub const NET_FAULT_KINDS: [&str; 4] = ["http_error", "http_html_body", "http_truncated_json", "http_empty_body"];
+pub const NET_FAULT_KINDS: [&str; 6] = ["http_error", "http_html_body", "http_truncated_json", "http_empty_body", "http_json_error_object", "http_json_array"];
 
 pub struct SimBoc {
     pub data: Arc<BocData>,
@@ -307,6 +310,8 @@ impl acb::util::http::HttpRequester for SimBoc {
             Some("http_error") => Err("connection reset by peer".to_string()),
             Some("http_html_body") => Ok("<html><body><h1>503 Service Unavailable</h1></body></html>".to_string()),
             Some("http_empty_body") => Ok(String::new()),
+            Some("http_json_error_object") => Ok("{\"message\":\"The service is temporarily unavailable\",\"docs\":\"https://www.bankofcanada.ca/valet/docs\"}".to_string()),
+            Some("http_json_array") => Ok("[]".to_string()),
             Some("http_truncated_json") => {
                 let full = self.data.render(&series, start, end, self.today, self.published_today);
                 let cut = full.len() * 2 / 3;
